@@ -41,6 +41,12 @@ func (p *c01) add(name string, n int, build func(i int) string) {
 
 var c01InsertQuick = []string{"{{", "}}", "{%", "%}", "{#", "#{", "(", "'", "\"", "-", "%", ".", "|", "1", "\n", "endif", "\r", "@"}
 
+var c01Wrappers = [][2]string{
+	{"{% embed 'e' %}", "{% endembed %}"}, {"{% embed 'e' %}{% block b %}", "{% endblock %}{% endembed %}"}, {"{% macro m(a) %}", "{% endmacro %}"},
+	{"{% block b %}", "{% endblock %}"}, {"{% set s %}", "{% endset %}"}, {"{% verbatim %}", "{% endverbatim %}{{ a }}"}, {"{# ", " #}{{ a }}"},
+	{"{{ \"#{", "}\" }}"}, {"{% if a %}", "{% else %}y{% endif %}"}, {"{% for i in a %}", "{% endfor %}"}, {"{% filter f %}", "{% endfilter %}"},
+}
+
 func (p *c01) Init(tier string, seed int64) {
 	p.tier, p.seed = tier, seed
 	corpus := gen.Corpus()
@@ -80,7 +86,7 @@ func (p *c01) Init(tier string, seed int64) {
 		for i, e := range ents {
 			offs[i] = e.off
 		}
-		p.add("fragmut", tot, func(i int) string {
+		fragmut := func(i int) string {
 			k := searchOffs(offs, i)
 			f := ents[k].frags
 			j := i - offs[k]
@@ -96,6 +102,15 @@ func (p *c01) Init(tier string, seed int64) {
 				pos, which := j/len(ins), j%len(ins)
 				return strings.Join(f[:pos], "") + ins[which] + strings.Join(f[pos:], "")
 			}
+		}
+		p.add("fragmut", tot, fragmut)
+		// the same mutated templates inside constructs that switch the tokeniser or the parser into another mode
+		// (an embed body is skipped token by token, a macro/block/capture body is parsed recursively, ...)
+		stride := p.pick(3, 1)
+		p.add("wrapped", (tot+stride-1)/stride, func(i int) string {
+			m := fragmut((i*stride + int(p.seed)%stride) % tot)
+			w := c01Wrappers[(i+int(p.seed))%len(c01Wrappers)]
+			return w[0] + m + w[1]
 		})
 	}
 	// (iii) bounded-exhaustive fragment sequences
@@ -160,7 +175,7 @@ func (p *c01) Init(tier string, seed int64) {
 	}
 	// (v) byte-level hostility inside corpus templates
 	{
-		repl := []string{"\x00", "\xff", "\xc3", "\r", "\r\n", "\xe2\x80\xa8", "\xf0\x9f"}
+		repl := []string{"\x00", "\xff", "\xc3", "\r", "\r\n", "\xe2\x80\xa8", "\xf0\x9f", "\f", "\v", "\x1f", "\x7f", "\xc2\x85", "\xc2\xa0", "\xef\xbb\xbf", "\xe2\x80\x8b", "\xe2\x80\xa9", "\x08", "\x1b"}
 		stridePos := p.pick(7, 1)
 		type ent struct {
 			s   string
@@ -187,6 +202,31 @@ func (p *c01) Init(tier string, seed int64) {
 				pos = (pos + int(p.seed)) % len(e.s)
 			}
 			return e.s[:pos] + repl[j%len(repl)] + e.s[pos+1:]
+		})
+	}
+	// (v') every byte value substituted and inserted at every position of short templates, one per lexer mode
+	{
+		shorts := []string{
+			"a{{ b.c|f(1, 'x') }}d", "{% if a %}x{% endif %}", "{{ \"a#{b}c\" }}", "x{#- c -#}y", "{% verbatim %}x{% endverbatim %}",
+			"{% for k, v in [1, 2] %}{{ v }}{% endfor %}", "{{- a -}}", "{% embed 'e' %}{% block b %}x{% endblock %}{% endembed %}",
+		}
+		var offs []int
+		tot := 0
+		for _, t := range shorts {
+			offs = append(offs, tot)
+			tot += (2*len(t) + 1) * 256
+		}
+		p.add("allbytes", tot, func(i int) string {
+			k := searchOffs(offs, i)
+			t := shorts[k]
+			j := i - offs[k]
+			b := string([]byte{byte(j % 256)})
+			j /= 256
+			if j < len(t) {
+				return t[:j] + b + t[j+1:]
+			}
+			j -= len(t)
+			return t[:j] + b + t[j:]
 		})
 	}
 	// (vi) nesting ladders
@@ -351,7 +391,7 @@ func fragShape(s string) string {
 }
 
 func (p *c01) Rule() string {
-	return "inputs: every byte prefix of the seed corpus (repo tests/examples/testdata + hand-written, one per tag/operator); single-fragment deletion, duplication and insertion at every fragment boundary of every corpus template; bounded-exhaustive sequences over a 26-fragment hostile alphabet (length<=3 quick, <=5 thorough); seeded random byte / delimiter-alphabet / fragment strings; hostile bytes (NUL, 0xFF, truncated UTF-8, CR, CRLF, U+2028) substituted at corpus positions; nesting ladders to depth 200 (quick) / 9000 (thorough). Each input goes through parse.Parse, core Env.Parse and Twig Env.Parse (3 evaluations). Non-trivial = contains an opening delimiter; distinct = (error kind with numbers stripped, first 12 fragment classes)."
+	return "inputs: every byte prefix of the seed corpus (repo tests/examples/testdata + hand-written, one per tag/operator); single-fragment deletion, duplication and insertion at every fragment boundary of every corpus template; bounded-exhaustive sequences over a 26-fragment hostile alphabet (length<=3 quick, <=5 thorough); seeded random byte / delimiter-alphabet / fragment strings; hostile bytes (NUL, 0xFF, truncated UTF-8, CR, CRLF, FF, VT, ESC, DEL, NEL, NBSP, BOM, ZWSP, U+2028/9) substituted at corpus positions; every byte value 0..255 substituted and inserted at every position of 8 short templates (one per tokeniser mode); every single-fragment mutant again inside 11 wrappers (embed body, embed block, macro, block, capture, verbatim, comment, interpolation, if/else, for, filter); nesting ladders to depth 200 (quick) / 9000 (thorough). Each input goes through parse.Parse, core Env.Parse and Twig Env.Parse (3 evaluations). Non-trivial = contains an opening delimiter; distinct = (error kind with numbers stripped, first 12 fragment classes)."
 }
 
 func (p *c01) Assumptions() []string {
